@@ -65,8 +65,8 @@ func withTree(tree []c16Entry, fn func(root string) error) error {
 	}
 	defer os.RemoveAll(parent)
 	parent, _ = filepath.EvalSymlinks(parent)
-	root := filepath.Join(parent, "tree")
-	if err := os.Mkdir(root, 0o755); err != nil {
+	root := filepath.Join(parent, "p1", "p2", "p3", "p4", "p5", "p6", "tree")
+	if err := os.MkdirAll(root, 0o755); err != nil {
 		return fmt.Errorf("harness: %v", err)
 	}
 	if err := buildTree(root, tree); err != nil {
